@@ -1,10 +1,164 @@
 import Driver.Common
-/-! Judge for C14: not built yet (stub so that the target exists). -/
-open Lean Driver
+import EgVerif.Spec.Topic
+/-!
+Judge for C14. Harness case: `{"cache":n, "ops":[{"k":"s"|"u"|"d","c":cid,"f":[filters],"q":[qos]}], "topics":[…]}`;
+observation: `{"steps":[{"ack":bool,"res":["c0:1,c2:0", "", "!" …]}]}` — after every op the (sorted)
+result of `findSubscribers` for every topic of the batch (`!` = error).
+
+* `agree`: the implementation equals the model — same acknowledgements, same error/ok per query, the
+  same *set* of routed clients, and every reported QoS is one of the model's hits for that client (the
+  Go map keeps one QoS per client; which one is not fixed by the unrepaired `addClients`).
+* `spec`: what the implementation returned satisfies the executable specification evaluated on the
+  abstract subscription set (`specRun`): `routedOK`, malformed SUBSCRIBE packets not acknowledged.
+-/
+open Lean EgVerif.Topic
 
 namespace Driver.C14
 
-def judges : List (String × Judge) := []
+structure JOp where
+  op : Op
+  kind : String
+
+def parseOp (j : Json) : Except String Op := do
+  let k := optStr j "k"
+  let c := optStr j "c"
+  let fs := (getStrList j "f").toOption.getD []
+  let qs := (getIntList j "q").toOption.getD []
+  match k with
+  | "s" =>
+    let qs' := (List.range fs.length).map (fun i => ((qs[i]?).getD 0).toNat)
+    pure (.subscribe c ((fs.map String.toList).zip qs'))
+  | "u" => pure (.unsubscribe c (fs.map String.toList))
+  | "d" => pure (.disconnect c)
+  | _ => throw s!"op kind {k}"
+
+/-- "c0:1,c2:0" ↦ [("c0",1),("c2",0)] -/
+def parseRes (s : String) : Option (List (Client × QoS)) :=
+  if s == "!" then none
+  else if s.isEmpty then some []
+  else some ((s.splitOn ",").map fun e =>
+    match e.splitOn ":" with
+    | [c, q] => (c, q.toNat!)
+    | _ => (e, 99))
+
+def showRes (l : List (Client × QoS)) : String :=
+  ",".intercalate (l.map fun p => s!"{p.1}:{p.2}")
+
+def dedupClients (l : List (Client × QoS)) : List Client := (l.map (·.1)).eraseDups
+
+def sameSet (a b : List Client) : Bool := a.all b.contains && b.all a.contains
+
+structure Acc where
+  agree : Bool := true
+  spec : Bool := true
+  sig : String := ""
+  note : String := ""
+  tags : List String := []
+  hits : Nat := 0
+  multi : Bool := false
+
+def Acc.fail (a : Acc) (sig note : String) : Acc :=
+  if a.spec then { a with spec := false, sig := sig, note := note } else a
+
+def Acc.dis (a : Acc) (note : String) : Acc :=
+  if a.agree then { a with agree := false, note := if a.note.isEmpty then note else a.note } else a
+
+def Acc.tag (a : Acc) (t : String) : Acc := if a.tags.contains t then a else { a with tags := t :: a.tags }
+
+def opWellFormed : Op → Bool
+  | .subscribe _ fs => fs.all (fun p => wellFormed p.1)
+  | .unsubscribe _ fs => fs.all wellFormed
+  | .disconnect _ => true
+
+def judge : Judge := liftJudge fun input obs => do
+  match obsPanic obs with
+  | some m => pure { agree := false, spec := false, sig := "panic", note := m }
+  | none =>
+  let opsJ ← getArr input "ops"
+  let ops ← opsJ.toList.mapM parseOp
+  let topics := ((getStrList input "topics").toOption.getD []).map String.toList
+  let steps ← getArr obs "steps"
+  if steps.size != ops.length then
+    return { agree := false, spec := true, note := s!"{steps.size} steps for {ops.length} ops" }
+  let mut st : State := State.init
+  let mut subs : Subs := []
+  let mut acc : Acc := {}
+  let mut expected : Array Json := #[]
+  let mut i := 0
+  for op in ops do
+    let stepObs := steps[i]!
+    i := i + 1
+    let (st', err) := step st op
+    let before := subs
+    subs := specStep subs op
+    st := st'
+    -- tags
+    match op with
+    | .subscribe c fs =>
+      acc := acc.tag (if fs.length > 1 then "op:subscribe-multi" else "op:subscribe")
+      if fs.any (fun p => (before.get (splitSlash p.1) c).isSome) then acc := acc.tag "resubscribe"
+      if fs.any (fun p => p.1.contains '#') then acc := acc.tag "filter:#"
+      if fs.any (fun p => p.1.contains '+') then acc := acc.tag "filter:+"
+      if fs.any (fun p => (splitSlash p.1).contains []) then acc := acc.tag "filter:empty-level"
+    | .unsubscribe c fs =>
+      acc := acc.tag "op:unsubscribe"
+      if fs.any (fun f => wellFormed f && (before.get (splitSlash f) c).isNone) then acc := acc.tag "unsubscribe-unknown"
+      if subs.length < before.length then acc := acc.tag "unsubscribe-removes"
+    | .disconnect _ =>
+      acc := acc.tag "op:disconnect"
+      if subs.length < before.length then acc := acc.tag "disconnect-removes"
+    if !opWellFormed op then acc := acc.tag "malformed-filter"
+    -- acknowledgement
+    let ack := optBool stepObs "ack"
+    let wantAck := match op with
+      | .subscribe _ _ => !err
+      | .unsubscribe _ _ => true
+      | .disconnect _ => false
+    if ack != wantAck then acc := acc.dis s!"op {i-1}: ack {ack}, model {wantAck}"
+    match op with
+    | .subscribe _ _ =>
+      if ack && !opWellFormed op then acc := acc.fail "ack:malformed-subscribe-accepted" s!"op {i-1}"
+      if !ack && opWellFormed op then acc := acc.fail "ack:wellformed-subscribe-rejected" s!"op {i-1}"
+    | _ => pure ()
+    -- routing
+    let res := (getStrList stepObs "res").toOption.getD []
+    if res.length != topics.length then
+      acc := acc.dis s!"op {i-1}: {res.length} results for {topics.length} topics"
+    let mut exp : Array Json := #[]
+    for (tp, r) in topics.zip res do
+      let got := parseRes r
+      match split tp, got with
+      | none, none => exp := exp.push "!"
+      | none, some _ => acc := acc.dis s!"op {i-1}: malformed topic accepted"; exp := exp.push "!"
+      | some _, none => acc := acc.dis s!"op {i-1}: topic rejected"; exp := exp.push ""
+      | some lv, some g =>
+        let hits := find st.trie lv
+        let m := collapseMax hits
+        exp := exp.push (showRes m)
+        if !(sameSet (dedupClients hits) (g.map (·.1)) && g.all hits.contains) then
+          acc := acc.dis s!"op {i-1} topic {String.ofList tp}: got {r}, model hits {showRes hits}"
+        if g == m then acc := acc.tag "qos=max" else if g.all hits.contains then acc := acc.tag "qos=own-not-max"
+        -- executable spec on the observation
+        let want := specFind subs lv
+        if !routedOK subs lv g then
+          let extra := g.any (fun p => !(want.any (fun w => w.1 == p.1)))
+          let missing := want.any (fun w => !(g.any (fun p => p.1 == w.1)))
+          let sig := if extra then "route:extra-client" else if missing then "route:missing-client"
+            else if g.any (fun p => !want.contains p) then "route:foreign-qos" else "route:duplicate-client"
+          acc := acc.fail sig s!"op {i-1} topic {String.ofList tp}: got {r}, spec {showRes want}"
+        if g.length > 0 then acc := { acc with hits := acc.hits + 1 }
+        if g.length > 1 then acc := { acc with multi := true }
+        if (dedupClients hits).length < hits.length then acc := acc.tag "overlapping-own-filters"
+        if g.length > 0 && subs.any (fun e => e.1.getLast? == some hash && e.1.length == lv.length + 1
+            && «matches» e.1 lv) then
+          acc := acc.tag "parent-level-#"
+    expected := expected.push (Json.mkObj [("ack", wantAck), ("res", Json.arr exp)])
+  let tags := acc.tags ++ [s!"cache={optInt input "cache" 0}"]
+    ++ (if subs.isEmpty && st.trie.isEmpty then ["ends-empty"] else [])
+  pure { agree := acc.agree, spec := acc.spec, expected := Json.mkObj [("steps", Json.arr expected)],
+         tags := tags, nontrivial := acc.multi && acc.hits ≥ 3, sig := acc.sig, note := acc.note }
+
+def judges : List (String × Judge) := [("C14", judge)]
 
 end Driver.C14
 
